@@ -4,9 +4,10 @@
 set -e
 cd "$(dirname "$0")"
 B=../build/ocaml
+V=$(cd .. && pwd)
 mkdir -p $B
 rm -f $B/*.ml $B/*.mli
-(cd $B && coqc -R /verif/coq TV /verif/coq/Extract.v > extract.log 2>&1) || { cat $B/extract.log; exit 1; }
+(cd $B && coqc -R $V/coq TV $V/coq/Extract.v > extract.log 2>&1) || { cat $B/extract.log; exit 1; }
 cp *.ml dune dune-project $B/
 {
  echo 'let () ='
